@@ -984,7 +984,9 @@ func c18LendTracker(t *testing.T, tr *Trace, rng *Rng, a *c18App) {
 			}
 			if useMsg {
 				// the clock of the position: the handler stored (index returned by CalculateLendReward, now)
-				tr.Line("lr.stamp", i64(now), i64(lend2.LastInteractionTime.Unix()), c18Raw(lend2.GlobalIndex), c18Raw(igc))
+				again, _, err := k.CalculateLendReward(sctx, lend2.AmountIn.Amount.String(), apr, lend2) // a second calculation in the same block
+				must(err)
+				tr.Line("lr.stamp", i64(now), i64(lend2.LastInteractionTime.Unix()), c18Raw(lend2.GlobalIndex), c18Raw(igc), c18Raw(again))
 				tr.Count("lendtrack:msg")
 				// governance changes the rate parameters in the same block; a second calculation must accrue nothing (zero
 				// time), whatever the lend rate has become
